@@ -244,10 +244,14 @@ def run(ctx):
         gmetas.append({"graph": gd, "config": cfgd, "states": sts, "path": path})
         ctx.case_seen(["graph", gd, cfgd, sts, path], True)
         ctx.count("graph_" + gd["kind"])
-    # large moduli: the overflow corner (n = 3, m near 2^31)
-    for mod in (2 ** 31 - 1, 2 ** 31):
-        for _ in range(ctx.budget(6, 40)):
-            n = 3
+    # the whole range of moduli with entries near the modulus: the int64 overflow corner (m near 2^31) and every threshold at which a
+    # floating-point or narrower-integer shortcut would stop being exact (2^8, 2^16, sqrt(2^24), 2^24, sqrt(2^53/n), 2^26, sqrt(2^63/n), 2^31)
+    import math as _m
+    mods = [2 ** 31 - 1, 2 ** 31, 2 ** 8 - 1, 2 ** 16 + 1, 4099, 2 ** 24 - 3, 2 ** 24 + 1, 2 ** 26 - 5, 2 ** 26, 2 ** 26 + 1, 6 * 10 ** 7, 10 ** 8 + 7,
+            int(_m.isqrt(2 ** 53 // 3)) + 2, int(_m.isqrt(2 ** 53 // 8)) + 2, int(_m.isqrt(2 ** 63 // 3)) - 1, 2 ** 30 + 3]
+    for mi, mod in enumerate(mods):
+        for rep in range(ctx.budget(6 if mi < 2 else 2, 40 if mi < 2 else 10)):
+            n = 3 if mi < 2 or rep % 2 == 0 else rng.choice([4, 6, 8])
             M = [[rng.choice([mod - 1, mod - 2, rng.randrange(mod)]) for _ in range(n)] for _ in range(n)]
             gd = {"kind": "matrix", "mats": [M], "modulo": mod, "n": n, "m": 1, "central": [mod - 1] * n}
             graph = G.make_graph(gd, {"bit_encoding_width": None})
